@@ -157,30 +157,72 @@ def run(ctx):
         else:
             ctx.check('old_const' in facts and 'new_const' in facts and rv == '_as_list(new)', 'C12.4', 'join:extend-otherwise', f_join.loc(),
                       'otherwise the (listified) new matcher is extended and returned', 'returns %s with facts %s' % (rv, facts))
-            augs = {(e.target, norm(e.value)) for e in p.events if e.kind == 'aug'}
-            ctx.check(augs == {('_as_list(new).positive', '_as_list(old).positive'), ('_as_list(new).negative', '_as_list(old).negative')}, 'C12.4', 'join:field-wise', f_join.loc(),
-                      'old alternatives join the alternatives and old exclusions join the exclusions', 'join extends %s' % sorted(augs))
-            FILT = re.compile(r'^\[(\w+) for \1 in (?:\w+|_as_list\(new\))\.positive if (?:\1\.always\(\) is not True|not \1\.always\(\) is True)\]$')
-            stores = [e for e in p.events if e.kind == 'store' and isinstance(e.node, ast.Assign)]
-            filt_names = {e.target for e in p.events if e.kind == 'bind' and FILT.match(norm(getattr(e.value, '_origin', e.value)))}
-            star_stores = []
-            for e in stores:
-                v = getattr(e.value, '_origin', None) if isinstance(e.value, ast.Name) else None
-                vt = norm(v if v is not None else e.value)
-                is_filter = bool(FILT.match(vt)) or (isinstance(e.value, ast.Name) and e.value.id in filt_names)
-                is_star = vt == '[AlwaysMatcher(True)]'
-                if is_star:
-                    star_stores.append(e)
-                good = e.target == '_as_list(new).positive' and (is_filter or is_star)
-                ctx.check(bool(good), 'C12.4', 'join:only-star-dropped', f_join.loc(e.node), 'only always-true alternatives are dropped from the alternatives', 'join rewrites %s <- %s' % (e.target, vt[:100]))
-            app = [e for e in p.events if e.kind == 'call' and e.ftext == '_as_list(new).positive.append' and norm(e.args[0]) == 'AlwaysMatcher(True)']
-            bad_app = [e for e in p.events if e.kind == 'call' and e.ftext == '_as_list(new).positive.append' and norm(e.args[0]) != 'AlwaysMatcher(True)']
-            empty = [v for a, v in p.decisions if a.text == '0 == len(_as_list(new).positive)'] + [not v for a, v in p.decisions if a.text in filt_names or a.text == '_as_list(new).positive']
-            added = len(app) + len(star_stores)
-            ctx.check(bool(empty) and (added == 1) == bool(empty[0]) and not bad_app, 'C12.4', 'join:star-readded-iff-empty:%s' % (empty[0] if empty else '?'), f_join.loc(),
-                      'a * alternative is re-added exactly when no specific alternative is left', 'star added=%s empty=%s' % ([e.text[:50] for e in app + star_stores], empty))
-            negw = [e for e in p.events if e.kind in ('store',) and isinstance(e.node, ast.Assign) and e.target.endswith('.negative')]
-            ctx.check(not negw, 'C12.4', 'join:exclusions-kept', f_join.loc(), 'no exclusion is dropped by join')
+            # What the two lists of the returned matcher hold at the end of the path, as terms of a small list algebra over the four
+            # input lists: cat(..), keep-not-star(..), [*].  Evaluated over the stores / appends of the path, so `+=`, rebuilt lists,
+            # temporaries and conditional expressions all give the same term.
+            NP, NN, OP, ON = '_as_list(new).positive', '_as_list(new).negative', '_as_list(old).positive', '_as_list(old).negative'
+            cur = {NP: ('cat', [('base', 'NP')]), NN: ('cat', [('base', 'NN')]), OP: ('cat', [('base', 'OP')]), ON: ('cat', [('base', 'ON')])}
+
+            def alg(e_, depth=0):
+                """-> ('cat', [segments]); segment = ('base', name) | ('keep', segment) | ('star',) | ('other', text)"""
+                if depth > 8:
+                    return ('cat', [('other', norm(e_)[:60])])
+                if isinstance(e_, ast.Name) and getattr(e_, '_origin', None) is not None:
+                    return alg(e_._origin, depth + 1)
+                t_ = norm(e_)
+                if t_ in cur:
+                    return cur[t_]
+                if isinstance(e_, ast.BinOp) and isinstance(e_.op, ast.Add):
+                    return ('cat', alg(e_.left, depth + 1)[1] + alg(e_.right, depth + 1)[1])
+                if isinstance(e_, ast.List):
+                    segs = []
+                    for x in e_.elts:
+                        segs.append(('star',) if norm(x) == 'AlwaysMatcher(True)' else ('other', norm(x)[:40]))
+                    return ('cat', segs)
+                if isinstance(e_, ast.ListComp) and len(e_.generators) == 1 and isinstance(e_.generators[0].target, ast.Name) and norm(e_.elt) == e_.generators[0].target.id \
+                        and len(e_.generators[0].ifs) == 1:
+                    v_ = e_.generators[0].target.id
+                    c_ = norm(e_.generators[0].ifs[0])
+                    if c_ in ('%s.always() is not True' % v_, 'not %s.always() is True' % v_, 'not (%s.always() is True)' % v_):
+                        inner = alg(e_.generators[0].iter, depth + 1)[1]
+                        out_ = []
+                        for sg in inner:
+                            if sg == ('star',):
+                                continue            # a literal * does not survive the filter
+                            out_.append(sg if sg[0] == 'keep' else ('keep', sg))
+                        return ('cat', out_)
+                if isinstance(e_, ast.Call) and isinstance(e_.func, ast.Name) and e_.func.id == 'list' and len(e_.args) == 1:
+                    return alg(e_.args[0], depth + 1)
+                return ('cat', [('other', t_[:60])])
+            for e in p.events:
+                if e.kind == 'store' and e.target in (NP, NN):
+                    cur[e.target] = alg(e.value)
+                elif e.kind == 'call' and e.ftext in (NP + '.append', NN + '.append') and e.args:
+                    k_ = e.ftext[:-len('.append')]
+                    cur[k_] = ('cat', cur[k_][1] + alg(ast.List(elts=[e.args[0]], ctx=ast.Load()))[1])
+                elif e.kind == 'call' and e.ftext in (NP + '.extend', NN + '.extend') and e.args:
+                    k_ = e.ftext[:-len('.extend')]
+                    cur[k_] = ('cat', cur[k_][1] + alg(e.args[0])[1])
+            kept = [('keep', ('base', 'NP')), ('keep', ('base', 'OP'))]
+            # was the filtered list empty on this path?  (decided by the path: an emptiness test of the alternatives after filtering)
+            from .common import nonempty_atom
+            empties = []
+            for a_, v_ in p.decisions:
+                for nm_ in [NP] + sorted({e.target for e in p.events if e.kind == 'bind'}):
+                    ne_ = nonempty_atom(a_.text, nm_)
+                    if ne_ is not None:
+                        empties.append(v_ != ne_)       # True = the list was empty
+            pos = cur[NP][1]
+            if empties and empties[-1]:
+                want_pos = [kept + [('star',)], [('star',)]]
+                why = 'no specific alternative is left: a * alternative stands in'
+            else:
+                want_pos = [kept]
+                why = 'the alternatives are the new ones followed by the old ones, without * alternatives'
+            ctx.check(bool(empties) and pos in want_pos, 'C12.4', 'join:alternatives:%s' % ('empty' if empties and empties[-1] else 'specific'), f_join.loc(), why,
+                      'join leaves the alternatives as %s (emptiness decided: %s); expected %s' % (pos, empties, want_pos[0]))
+            ctx.check(cur[NN][1] == [('base', 'NN'), ('base', 'ON')], 'C12.4', 'join:exclusions-kept', f_join.loc(), 'the exclusions are the new ones followed by the old ones: none is dropped',
+                      'join leaves the exclusions as %s' % (cur[NN][1],))
     ctx.floor('C12.4', len(jpaths), 4, 'paths of join')
     f_al = repo.func('matcher._as_list')
     for p in paths_of(repo, f_al):
@@ -233,6 +275,15 @@ def run(ctx):
                     # collapse to a single always-true alternative
                     par = n._parent
                     ok = isinstance(par, ast.If) and re.match(r'^(\w+)\.always\(\) is True$', norm(par.test)) is not None and t == '[%s]' % norm(par.test).split('.')[0]
+                if not ok and which == 'positive':
+                    # collapse to always-true alternatives picked out beforehand: N = [p for p in self.positive if p.always() is True]; if N: self.positive = N[-1:]
+                    mm = re.match(r'^(?:(\w+)\[-1:\]|(\w+)\[:1\]|\[(\w+)\[-1\]\]|\[(\w+)\[0\]\])$', t)
+                    nm = next((g_ for g_ in mm.groups() if g_), None) if mm else None
+                    if nm:
+                        defs = [x for x in f.body_nodes() if isinstance(x, ast.Assign) and len(x.targets) == 1 and isinstance(x.targets[0], ast.Name) and x.targets[0].id == nm]
+                        sel = len(defs) == 1 and re.match(r'^\[(\w+) for \1 in self\.positive if \1\.always\(\) is True\]$', norm(defs[0].value)) is not None
+                        par = n._parent
+                        ok = bool(sel) and isinstance(par, ast.If) and norm(par.test) in (nm, 'len(%s) > 0' % nm, '%s != []' % nm) and n in par.body
                 ctx.check(ok, 'C12.6', '%s:%s<-%s' % (q, which, t[:60]), f.loc(n),
                           'simplify rewrites %s only by simplifying each element, dropping never-matching constants, or collapsing to a single * alternative' % which,
                           '%s rewrites self.%s as %s: alternatives/exclusions that are not constants can be dropped or merged, so accumulated matchers lose members' % (q, which, t[:100]))
